@@ -20,6 +20,8 @@ func init() {
 }
 
 func runC07(c *core.Ctx) {
+	c.Rule("BOUNDS", "layout fixer: a slice indexed by a loop position has the ranged slice's length")
+	checkLoopIndexBounds(c, "BOUNDS", [][2]string{{"execution", "calculateMapping"}, {"execution", "(*ObjectLayoutFixer).fixLayout"}, {"execution", "NewObjectLayoutFixer"}})
 	c.Rule("TOPLIMIT", "the outermost LIMIT is typechecked without the record schema and against Int")
 	checkTopLevelLimit(c, "TOPLIMIT")
 	c.Rule("MAYBE", "maybe-fitting arguments are asserted at run time; type-function overloads are not matched by arity")
